@@ -19,7 +19,7 @@ PROPS = {
     "C02": {
         "module": "Cdecao.Props.C02",
         "theorems": ["Props.C02_node_bound", "Props.C02_node_mono", "Props.C02_cover", "Props.C02_node_none", "Props.C02_feas_in_sol",
-                     "Props.C02_feas_optimal", "Props.C02_wrong_empty", "Props.C02_compose", "Props.C02_partial", "Props.noFreeableb_sound"],
+                     "Props.C02_feas_optimal", "Props.C02_wrong_empty", "Props.C02_compose", "Props.C02_partial", "Props.noFreeableb_sound", "Props.C02_full_counterexample", "Props.F1_root", "Props.F1_enforce", "Props.F1_cancel"],
         "streams": ["solve-norooms", "node-norooms"],
     },
     "C03": {
@@ -125,7 +125,7 @@ _NODE = "run_bab_node / hungarian_algorithm are modelled by N2.runNodeS / H2.run
 LEVELS = {
     "C01": {"text": "Theorem Props.C01: for every well-formed instance, room list, float behaviour, thread count and schedule the incumbent of the engine model (hence the returned assignment) satisfies HardOK; no hypothesis on matching or tree. Tie to the code: node-by-node and trace-by-trace correspondence plus HardOK evaluated in Lean on every assignment the real code returns.",
             "note": _NODE + " " + _ENG + " InstOK (indices in range, each participant instructs at most one course) is the validity premise."},
-    "C02": {"text": "Full statement is false for the unchanged code (known finding F1, class: a participant with own choices instructs a non-fixed course). In the complement class Props.C02_partial is proved end to end: for every valid instance (decidable validb) without room list in which no participant with own choices instructs a non-fixed course (decidable noFreeableb), every T >= 1 and schedule, the finished search reports nothing only if no assignment satisfies the hard constraints, and otherwise an assignment satisfying them whose reported score is its documented score and is maximal. Real runs without rooms are compared with an exact brute-force optimum (<= 4 courses, <= 7 participants); a miss is the known finding only if the instance is in the F1 class AND the model of the unchanged algorithm gives the same answer; anything else is a violation.",
+    "C02": {"text": "Full statement is false for the code — Props.C02_full_counterexample proves it of the model on the 2-course witness with the three node results evaluated by the kernel, and the check replays the witness on the real code on every run (known finding F1, class: a participant with own choices instructs a non-fixed course). In the complement class Props.C02_partial is proved end to end: for every valid instance (decidable validb) without room list in which no participant with own choices instructs a non-fixed course (decidable noFreeableb), every T >= 1 and schedule, the finished search reports nothing only if no assignment satisfies the hard constraints, and otherwise an assignment satisfying them whose reported score is its documented score and is maximal. Real runs without rooms are compared with an exact brute-force optimum (<= 4 courses, <= 7 participants); a miss is the known finding only if the instance is in the F1 class AND the model of the unchanged algorithm gives the same answer; anything else is a violation.",
             "note": _NODE + " " + _ENG + " Partial with respect to the full property: inside the F1 class the property is false of the code (known finding), the theorem covers the complement."},
     "C17": {"text": "Theorem Props.C17_rooms_le_opt: with any room list the reported score is the documented score of an assignment satisfying the hard constraints, hence at most any upper bound of the room-free optimum (all T, schedules). The non-binding half is checked on paired real runs (identical verdict, score and node-by-node identical search trees) and by the brute-force optimum.",
             "note": _NODE + " The theorem `rooms_nonbinding` (identical node results) is not yet proved; that half is correspondence + paired-run oracle only (partial)."},
